@@ -23,8 +23,16 @@ def run(res):
     status = {}
     for k in range(1200 if quick else 15000):
         nv = rng.choice([1, 2, 3, 4, 4])
+        if k % 5 == 4:
+            # odd-looking variable names (renaming of a, b, c, d)
+            ren = dict(zip(B.VARS, rng.choice(B.ODD_VARSETS)))
+        else:
+            ren = None
         names = B.VARS[:nv]
         ordering = [v for v in rng.choice(orders) if v in names]
+        if ren:
+            names = [ren[v] for v in names]
+            ordering = [ren[v] for v in ordering]
         h = B.History(ordering)
         malformed = rng.random() < 0.25
         e = B.rand_exp(rng, rng.choice([1, 2, 3, 4]), names, p_bad=0.15 if malformed else 0.0,
@@ -71,7 +79,7 @@ def run(res):
                 h.notes.append('synonym form of %s builds a different OBDD' % B.render(e))
         # the same text under another ordering while the first results are still referenced
         if nv >= 2:
-            other = list(reversed(ordering)) if rng.random() < 0.5 else [v for v in rng.choice(orders) if v in names]
+            other = list(reversed(ordering)) if rng.random() < 0.5 else rng.sample(ordering, len(ordering))
             h2 = B.History(other)
             h2.new(e)
             if h2.pool[0] is not None:
